@@ -3,6 +3,7 @@
   About Model/Engine.lean: `get_next_service_timepoint*` (protocol.rs).
 -/
 import GV.Proofs.EngineBasics
+import GV.Proofs.EngineWrite
 namespace GV.Props.C08
 open GV
 
@@ -155,5 +156,30 @@ theorem no_queue_wakeup_while_write_pending (e : Engine) (all : Bool) (h : e.pen
 /-- a halted or disconnected engine asks for no service -/
 theorem idle_states_ask_nothing (e : Engine) (h : e.state = .halted ∨ e.state = .disconnected) : e.nextServiceTime = some none := by
   rcases h with h | h <;> simp [Engine.nextServiceTime, h]
+
+/-! ### every history: the write path never strands an operation -/
+
+/-- **An operation that waits for a write completion has a write pending.**  After any history (service calls offering room for
+    a fixed header): the written-but-unflushed list is empty unless the driver owes the engine a write completion - so the
+    result of a QoS 0 publish (and every other operation completed by the write itself) is never left waiting for an event that
+    will not come.  The reported next-service time may be 'never' only because that completion is due. -/
+theorem unflushed_operation_has_a_write_pending (cfg : Config) (evs : List Event) (hc : ∀ ev ∈ evs, ev.capOk)
+    (h : (runEvents (Engine.new cfg) evs).1.pendingWC ≠ []) : (runEvents (Engine.new cfg) evs).1.pendingWrite = true :=
+  (pw_after cfg evs hc).1 h
+
+/-- **The operation being written always has a byte left to write**: while the engine runs, a current operation has encoding
+    steps left and they begin with a step that emits a byte - a packet whose last byte is out is never still "being written". -/
+theorem current_operation_has_a_byte_left (cfg : Config) (evs : List Event) (hc : ∀ ev ∈ evs, ev.capOk) (id : Nat)
+    (hs : (runEvents (Engine.new cfg) evs).1.state = .connected ∨ (runEvents (Engine.new cfg) evs).1.state = .pendingConnack)
+    (hcur : (runEvents (Engine.new cfg) evs).1.current = some id) :
+    (runEvents (Engine.new cfg) evs).1.encSteps ≠ [] ∧ GoodHead (runEvents (Engine.new cfg) evs).1.encSteps :=
+  (pw_after cfg evs hc).2 hs id hcur
+
+/-- non-vacuity: a QoS 0 publish with an empty payload through an 11-byte buffer (3 bytes left after its last byte) is complete with its last byte, and waits for
+    the write completion with a write pending -/
+example :
+    let e := (runEvents (Engine.new {}) [.opened 0 100, .service 0 64 0, .writeDone 0, .data 0 [32, 3, 0, 0, 0],
+      .user 1 (.publish { topic := [116, 47, 49], payload := some [] } 0 none), .service 1 11 0]).1
+    (e.pendingWC == [2] && e.pendingWrite && e.current == none) = true := by decide
 
 end GV.Props.C08
